@@ -28,7 +28,7 @@ type SpecEnv struct {
 	qn         *int
 	guard      []Term // antecedents in force (assume polarity), for lazily instantiated universals
 	lazyOK     bool   // forallref may be registered as a lazy universal / skolemised
-	pol        int // +1: formula will be proved, -1: formula will be assumed, 0: unknown polarity
+	pol        int    // +1: formula will be proved, -1: formula will be assumed, 0: unknown polarity
 }
 
 // UntypedInt: integer literal that adapts to its context.
